@@ -664,10 +664,11 @@ class TheoremStream(C08Stream):
 
 import c08s6      # noqa: E402  (needs the definitions above)
 import c08s11     # noqa: E402
+import c08t2      # noqa: E402
 
 PROPERTY = Property(
     pid="C08",
-    streams=[BodiesStream(), ExhaustiveStream(), TheoremStream(), AnnotateStream(), CliStream(), LongLineStream()] + c08s6.STREAMS + c08s11.STREAMS,
+    streams=[BodiesStream(), ExhaustiveStream(), TheoremStream(), AnnotateStream(), CliStream(), LongLineStream()] + c08s6.STREAMS + c08s11.STREAMS + c08t2.STREAMS,
     assumptions=[
         "line-level theorems are about texts whose only line boundary after normalisation is \\n (Spec.NoExoticBreaks); with \\v \\f "
         "\\x1c-\\x1e \\x85 U+2028 U+2029 inside the first line, the header block or the lines next to it the model (full str.splitlines) "
